@@ -107,6 +107,7 @@ def gap_mask(draw, n, classes=None, min_valid=0):
         v = [(t + ph) % 2 == 0 for t in range(n)]
     # guarantee a minimum number of valid cells by re-validating cells (construction, not rejection)
     nv = sum(v)
+    min_valid = min(min_valid, n)
     if nv < min_valid:
         invalid = [i for i in range(n) if not v[i]]
         need = min_valid - nv
